@@ -257,6 +257,7 @@ pub fn scenarios(thorough: bool) -> Vec<Scenario> {
         json!({"l♭":[z(), x(), y()], "m♭":[]}),
         json!({"l♭":[y()], "m♭":[x(), z()]}),
     ], if thorough { 4 } else { 3 }, &[Op::Unstage(0)]));
+    v.extend(cross_scenarios(thorough));
     v
 }
 
